@@ -9,7 +9,7 @@ def make_plan(prop, rng, idx, tier, variant="asan"):
     configurations are separate batches, chosen by the run index."""
     if prop == "C12":
         faults = (idx % 5) >= 3
-        plan = hist.gen_history(rng, "C12", faults=faults)
+        plan = hist.gen_history(rng, "C12", faults=faults, reuse=(variant == "plain"))
         plan["knobs"]["scon_fatal"] = 0
         if variant == "plain":
             plan["knobs"]["leakcheck"] = 0
